@@ -113,6 +113,14 @@ type Func struct {
 	Extra    string // extra statements at the start of the body (may use a0, a1, ... and vt.)
 }
 
+// TraceName identifies the function in traces (unique across packages).
+func (f *Func) TraceName() string {
+	if f.Pkg != nil && f.Pkg.Rel != "" {
+		return f.Pkg.Rel + "." + f.Name
+	}
+	return f.Name
+}
+
 type Item struct {
 	Kind      IKind
 	Fn        *Func
